@@ -97,6 +97,9 @@ func (vc *FnVC) obAssert(kind, key, text, cond string, pos token.Pos) {
 	if cond == "true" {
 		return
 	}
+	if kind == "frame" && vc.fc != nil && vc.fc.NoFrame {
+		return
+	}
 	if vc.sweep {
 		// safety sweep: no frame, callee preconditions taken for granted
 		if kind == "frame" {
@@ -402,6 +405,19 @@ func (vc *FnVC) resolveName(name string, b *ssa.BasicBlock, before int) (ssa.Val
 // allocLocalTerm: a local variable that lives in memory (address taken, named result): its
 // current content read from the environment's heap.
 func (vc *FnVC) allocLocalTerm(name string, env *Env) (Term, bool) {
+	// a variable captured by a function literal: go/ssa passes a pointer to its cell
+	for _, fv := range vc.fn.FreeVars {
+		if fv.Name() != name {
+			continue
+		}
+		ref, ok := vc.vals[fv]
+		pt, isPtr := fv.Type().Underlying().(*types.Pointer)
+		if !ok || !isPtr {
+			return Term{}, false
+		}
+		et := pt.Elem()
+		return Term{S: vc.loadObject(ref.S, et, env.curHeap()), Sort: vc.sortOf(et), T: et}, true
+	}
 	for _, b := range vc.fn.Blocks {
 		for _, in := range b.Instrs {
 			a, ok := in.(*ssa.Alloc)
@@ -495,6 +511,17 @@ func (vc *FnVC) entryEnv() *Env {
 	entry := func(comp, sort string) string { return vc.entryComp(comp, sort) }
 	env.heap = entry
 	env.oldHeap = entry
+	if vc.fn != nil && len(vc.fn.FreeVars) > 0 {
+		// captured variables of a function literal are readable by name in its contract
+		env.lookup = func(name string) (Term, bool) {
+			for _, fv := range vc.fn.FreeVars {
+				if fv.Name() == name {
+					return vc.allocLocalTerm(name, env)
+				}
+			}
+			return Term{}, false
+		}
+	}
 	return env
 }
 
